@@ -1,7 +1,1863 @@
-//! C13 harness (stub until built)
+//! C13: compile-time constant evaluation. Drives the real `rssl_typer::verif::evaluate_constexpr`
+//! on IR obtained by type-checking generated constant expressions (and on IR built directly), and
+//! judges every result with an independent reference evaluator written from the property text
+//! (exact i128 for literals, 32-bit two's complement wrap for int/uint, shift count & 31, C
+//! comparisons and logic, HLSL conversions).
+//!
+//! request : C13.eval \t <ir s-expression> [\t src:<source text the IR came from>]
+//!           C13.pos  \t <position> \t <ir s-expression> [\t src:<expr source>]
+//!   expr  : (lit C) | (var C|-) | (gl C|-) | (ev <enum id> C) | (cast T expr) | (sizeof T)
+//!           | (op <IntrinsicOp> expr*) | (other)
+//!   C     : b0 b1 | L<i128> | i<i32> | u<u32> | I<i64> | U<u64> | fl<f64 bits> | h<f32 bits>
+//!           | f<f32 bits> | d<f64 bits> | s | E<enum id>:C
+//!   T     : bool lit int uint flit half float double | enum<id>:<int|uint> | other
+//! observe : C | notconst | panic:<message>
 use crate::util::*;
+use rssl::ir;
+use rssl_typer::verif::evaluate_constexpr;
 
-pub fn run(_args: &Args, _out: &mut Out) {
-    eprintln!("C13: harness not built yet");
-    std::process::exit(2);
+// ------------------------------------------------------------------------------------------
+// own tree (what the request says), independent of the ir types
+// ------------------------------------------------------------------------------------------
+#[derive(Clone, Debug, PartialEq)]
+pub enum K {
+    Bool(bool),
+    Lit(i128),
+    I32(i32),
+    U32(u32),
+    I64(i64),
+    U64(u64),
+    FLit(u64),
+    F16(u32),
+    F32(u32),
+    F64(u64),
+    Str,
+    Enum(u32, Box<K>),
+}
+
+#[derive(Clone, Copy, Debug, PartialEq)]
+pub enum T {
+    Bool,
+    Lit,
+    Int,
+    UInt,
+    FLit,
+    Half,
+    Float,
+    Double,
+    Enum(u32, bool), // id, underlying is uint
+    Other,
+}
+
+#[derive(Clone, Debug, PartialEq)]
+pub enum X {
+    Lit(K),
+    Var(Option<K>),
+    Global(Option<K>),
+    EnumVal(u32, K),
+    Cast(T, Box<X>),
+    SizeOf(T),
+    Op(String, Vec<X>),
+    Other,
+}
+
+pub fn show_k(k: &K) -> String {
+    match k {
+        K::Bool(b) => format!("b{}", *b as u8),
+        K::Lit(v) => format!("L{}", v),
+        K::I32(v) => format!("i{}", v),
+        K::U32(v) => format!("u{}", v),
+        K::I64(v) => format!("I{}", v),
+        K::U64(v) => format!("U{}", v),
+        K::FLit(v) => format!("fl{:016x}", v),
+        K::F16(v) => format!("h{:08x}", v),
+        K::F32(v) => format!("f{:08x}", v),
+        K::F64(v) => format!("d{:016x}", v),
+        K::Str => "s".into(),
+        K::Enum(id, inner) => format!("E{}:{}", id, show_k(inner)),
+    }
+}
+
+pub fn parse_k(s: &str) -> Option<K> {
+    if let Some(r) = s.strip_prefix("fl") {
+        return u64::from_str_radix(r, 16).ok().map(K::FLit);
+    }
+    let (h, r) = s.split_at(s.char_indices().nth(1).map(|x| x.0).unwrap_or(s.len()));
+    match h {
+        "b" => match r {
+            "0" => Some(K::Bool(false)),
+            "1" => Some(K::Bool(true)),
+            _ => None,
+        },
+        "L" => r.parse().ok().map(K::Lit),
+        "i" => r.parse().ok().map(K::I32),
+        "u" => r.parse().ok().map(K::U32),
+        "I" => r.parse().ok().map(K::I64),
+        "U" => r.parse().ok().map(K::U64),
+        "h" => u32::from_str_radix(r, 16).ok().map(K::F16),
+        "f" => u32::from_str_radix(r, 16).ok().map(K::F32),
+        "d" => u64::from_str_radix(r, 16).ok().map(K::F64),
+        "s" if r.is_empty() => Some(K::Str),
+        "E" => {
+            let (id, inner) = r.split_once(':')?;
+            Some(K::Enum(id.parse().ok()?, Box::new(parse_k(inner)?)))
+        }
+        _ => None,
+    }
+}
+
+pub fn show_t(t: &T) -> String {
+    match t {
+        T::Bool => "bool".into(),
+        T::Lit => "lit".into(),
+        T::Int => "int".into(),
+        T::UInt => "uint".into(),
+        T::FLit => "flit".into(),
+        T::Half => "half".into(),
+        T::Float => "float".into(),
+        T::Double => "double".into(),
+        T::Enum(id, u) => format!("enum{}:{}", id, if *u { "uint" } else { "int" }),
+        T::Other => "other".into(),
+    }
+}
+
+pub fn parse_t(s: &str) -> Option<T> {
+    Some(match s {
+        "bool" => T::Bool,
+        "lit" => T::Lit,
+        "int" => T::Int,
+        "uint" => T::UInt,
+        "flit" => T::FLit,
+        "half" => T::Half,
+        "float" => T::Float,
+        "double" => T::Double,
+        "other" => T::Other,
+        _ => {
+            let r = s.strip_prefix("enum")?;
+            let (id, u) = r.split_once(':')?;
+            T::Enum(
+                id.parse().ok()?,
+                match u {
+                    "int" => false,
+                    "uint" => true,
+                    _ => return None,
+                },
+            )
+        }
+    })
+}
+
+pub fn show_x(x: &X) -> String {
+    let ok = |o: &Option<K>| o.as_ref().map(show_k).unwrap_or_else(|| "-".into());
+    match x {
+        X::Lit(k) => format!("(lit {})", show_k(k)),
+        X::Var(k) => format!("(var {})", ok(k)),
+        X::Global(k) => format!("(gl {})", ok(k)),
+        X::EnumVal(id, k) => format!("(ev {} {})", id, show_k(k)),
+        X::Cast(t, e) => format!("(cast {} {})", show_t(t), show_x(e)),
+        X::SizeOf(t) => format!("(sizeof {})", show_t(t)),
+        X::Op(o, a) => {
+            let mut s = format!("(op {}", o);
+            for e in a {
+                s.push(' ');
+                s.push_str(&show_x(e));
+            }
+            s.push(')');
+            s
+        }
+        X::Other => "(other)".into(),
+    }
+}
+
+fn tokens(s: &str) -> Vec<String> {
+    let mut out = Vec::new();
+    let mut cur = String::new();
+    for c in s.chars() {
+        match c {
+            '(' | ')' => {
+                if !cur.is_empty() {
+                    out.push(std::mem::take(&mut cur));
+                }
+                out.push(c.to_string());
+            }
+            ' ' => {
+                if !cur.is_empty() {
+                    out.push(std::mem::take(&mut cur));
+                }
+            }
+            c => cur.push(c),
+        }
+    }
+    if !cur.is_empty() {
+        out.push(cur);
+    }
+    out
+}
+
+fn parse_x_at(t: &[String], i: &mut usize) -> Option<X> {
+    if t.get(*i)? != "(" {
+        return None;
+    }
+    *i += 1;
+    let head = t.get(*i)?.clone();
+    *i += 1;
+    let optk = |s: &str| -> Option<Option<K>> {
+        if s == "-" { Some(None) } else { parse_k(s).map(Some) }
+    };
+    let r = match head.as_str() {
+        "lit" => {
+            let k = parse_k(t.get(*i)?)?;
+            *i += 1;
+            X::Lit(k)
+        }
+        "var" => {
+            let k = optk(t.get(*i)?)?;
+            *i += 1;
+            X::Var(k)
+        }
+        "gl" => {
+            let k = optk(t.get(*i)?)?;
+            *i += 1;
+            X::Global(k)
+        }
+        "ev" => {
+            let id = t.get(*i)?.parse().ok()?;
+            let k = parse_k(t.get(*i + 1)?)?;
+            *i += 2;
+            X::EnumVal(id, k)
+        }
+        "cast" => {
+            let ty = parse_t(t.get(*i)?)?;
+            *i += 1;
+            let e = parse_x_at(t, i)?;
+            X::Cast(ty, Box::new(e))
+        }
+        "sizeof" => {
+            let ty = parse_t(t.get(*i)?)?;
+            *i += 1;
+            X::SizeOf(ty)
+        }
+        "op" => {
+            let o = t.get(*i)?.clone();
+            *i += 1;
+            let mut args = Vec::new();
+            while t.get(*i)? != ")" {
+                args.push(parse_x_at(t, i)?);
+            }
+            X::Op(o, args)
+        }
+        "other" => X::Other,
+        _ => return None,
+    };
+    if t.get(*i)? != ")" {
+        return None;
+    }
+    *i += 1;
+    Some(r)
+}
+
+pub fn parse_x(s: &str) -> Option<X> {
+    let t = tokens(s);
+    let mut i = 0;
+    let x = parse_x_at(&t, &mut i)?;
+    if i == t.len() { Some(x) } else { None }
+}
+
+// ------------------------------------------------------------------------------------------
+// conversion from / to the real IR
+// ------------------------------------------------------------------------------------------
+pub fn k_of_const(c: &ir::Constant) -> K {
+    match c {
+        ir::Constant::Bool(b) => K::Bool(*b),
+        ir::Constant::IntLiteral(v) => K::Lit(*v),
+        ir::Constant::Int32(v) => K::I32(*v),
+        ir::Constant::UInt32(v) => K::U32(*v),
+        ir::Constant::Int64(v) => K::I64(*v),
+        ir::Constant::UInt64(v) => K::U64(*v),
+        ir::Constant::FloatLiteral(v) => K::FLit(v.to_bits()),
+        ir::Constant::Float16(v) => K::F16(v.to_bits()),
+        ir::Constant::Float32(v) => K::F32(v.to_bits()),
+        ir::Constant::Float64(v) => K::F64(v.to_bits()),
+        ir::Constant::String(_) => K::Str,
+        ir::Constant::Enum(id, inner) => K::Enum(id.0, Box::new(k_of_const(inner))),
+    }
+}
+
+pub fn const_of_k(k: &K) -> ir::Constant {
+    match k {
+        K::Bool(b) => ir::Constant::Bool(*b),
+        K::Lit(v) => ir::Constant::IntLiteral(*v),
+        K::I32(v) => ir::Constant::Int32(*v),
+        K::U32(v) => ir::Constant::UInt32(*v),
+        K::I64(v) => ir::Constant::Int64(*v),
+        K::U64(v) => ir::Constant::UInt64(*v),
+        K::FLit(v) => ir::Constant::FloatLiteral(f64::from_bits(*v)),
+        K::F16(v) => ir::Constant::Float16(f32::from_bits(*v)),
+        K::F32(v) => ir::Constant::Float32(f32::from_bits(*v)),
+        K::F64(v) => ir::Constant::Float64(f64::from_bits(*v)),
+        K::Str => ir::Constant::String("s".into()),
+        K::Enum(id, inner) => ir::Constant::Enum(ir::EnumId(*id), Box::new(const_of_k(inner))),
+    }
+}
+
+fn t_of_type(module: &ir::Module, id: ir::TypeId) -> T {
+    let un = module.type_registry.remove_modifier(id);
+    match module.type_registry.get_type_layer(un) {
+        ir::TypeLayer::Scalar(s) => match s {
+            ir::ScalarType::Bool => T::Bool,
+            ir::ScalarType::IntLiteral => T::Lit,
+            ir::ScalarType::Int32 => T::Int,
+            ir::ScalarType::UInt32 => T::UInt,
+            ir::ScalarType::FloatLiteral => T::FLit,
+            ir::ScalarType::Float16 => T::Half,
+            ir::ScalarType::Float32 => T::Float,
+            ir::ScalarType::Float64 => T::Double,
+        },
+        ir::TypeLayer::Enum(eid) => match module.enum_registry.get_underlying_scalar(eid) {
+            ir::ScalarType::Int32 => T::Enum(eid.0, false),
+            ir::ScalarType::UInt32 => T::Enum(eid.0, true),
+            _ => T::Other,
+        },
+        _ => T::Other,
+    }
+}
+
+/// serialise a real IR expression (with the parts of the module it refers to inlined)
+pub fn x_of_expr(module: &ir::Module, e: &ir::Expression) -> X {
+    match e {
+        ir::Expression::Literal(c) => X::Lit(k_of_const(c)),
+        ir::Expression::Variable(id) => X::Var(
+            module
+                .variable_registry
+                .get_local_variable(*id)
+                .constexpr_value
+                .as_ref()
+                .map(k_of_const),
+        ),
+        ir::Expression::Global(id) => X::Global(
+            module.global_registry[id.0 as usize]
+                .constexpr_value
+                .as_ref()
+                .map(k_of_const),
+        ),
+        ir::Expression::EnumValue(id) => {
+            let v = module.enum_registry.get_enum_value(*id);
+            X::EnumVal(v.enum_id.0, k_of_const(&v.value))
+        }
+        ir::Expression::Cast(ty, inner) => {
+            X::Cast(t_of_type(module, *ty), Box::new(x_of_expr(module, inner)))
+        }
+        ir::Expression::SizeOf(ty) => X::SizeOf(t_of_type(module, *ty)),
+        ir::Expression::IntrinsicOp(op, args) => X::Op(
+            format!("{:?}", op),
+            args.iter().map(|a| x_of_expr(module, a)).collect(),
+        ),
+        _ => X::Other,
+    }
+}
+
+const OPS: &[(&str, ir::IntrinsicOp)] = &[
+    ("PrefixIncrement", ir::IntrinsicOp::PrefixIncrement),
+    ("PrefixDecrement", ir::IntrinsicOp::PrefixDecrement),
+    ("PostfixIncrement", ir::IntrinsicOp::PostfixIncrement),
+    ("PostfixDecrement", ir::IntrinsicOp::PostfixDecrement),
+    ("Plus", ir::IntrinsicOp::Plus),
+    ("Minus", ir::IntrinsicOp::Minus),
+    ("LogicalNot", ir::IntrinsicOp::LogicalNot),
+    ("BitwiseNot", ir::IntrinsicOp::BitwiseNot),
+    ("Add", ir::IntrinsicOp::Add),
+    ("Subtract", ir::IntrinsicOp::Subtract),
+    ("Multiply", ir::IntrinsicOp::Multiply),
+    ("Divide", ir::IntrinsicOp::Divide),
+    ("Modulus", ir::IntrinsicOp::Modulus),
+    ("LeftShift", ir::IntrinsicOp::LeftShift),
+    ("RightShift", ir::IntrinsicOp::RightShift),
+    ("BitwiseAnd", ir::IntrinsicOp::BitwiseAnd),
+    ("BitwiseOr", ir::IntrinsicOp::BitwiseOr),
+    ("BitwiseXor", ir::IntrinsicOp::BitwiseXor),
+    ("BooleanAnd", ir::IntrinsicOp::BooleanAnd),
+    ("BooleanOr", ir::IntrinsicOp::BooleanOr),
+    ("LessThan", ir::IntrinsicOp::LessThan),
+    ("LessEqual", ir::IntrinsicOp::LessEqual),
+    ("GreaterThan", ir::IntrinsicOp::GreaterThan),
+    ("GreaterEqual", ir::IntrinsicOp::GreaterEqual),
+    ("Equality", ir::IntrinsicOp::Equality),
+    ("Inequality", ir::IntrinsicOp::Inequality),
+    ("Assignment", ir::IntrinsicOp::Assignment),
+    ("SumAssignment", ir::IntrinsicOp::SumAssignment),
+    ("MakeSigned", ir::IntrinsicOp::MakeSigned),
+];
+
+/// the fixed declarations every request is interpreted against: enum 0 has underlying type int,
+/// enum 1 has underlying type uint, global 0 is a `static const`, `g` is a non-constant global
+pub const PRELUDE: &str = "enum E0 { E0A = 0, E0B = 1, E0C = 5, E0D = -1, E0M = 2147483647 };\n\
+enum E1 { E1A = 1, E1B = 32, E1M = 4294967295u };\n\
+static const int gI = 7;\nstatic int gN = 7;\n";
+
+fn type_of_t(module: &mut ir::Module, t: &T) -> ir::TypeId {
+    let sc = |m: &mut ir::Module, s| m.type_registry.register_type(ir::TypeLayer::Scalar(s));
+    match t {
+        T::Bool => sc(module, ir::ScalarType::Bool),
+        T::Lit => sc(module, ir::ScalarType::IntLiteral),
+        T::Int => sc(module, ir::ScalarType::Int32),
+        T::UInt => sc(module, ir::ScalarType::UInt32),
+        T::FLit => sc(module, ir::ScalarType::FloatLiteral),
+        T::Half => sc(module, ir::ScalarType::Float16),
+        T::Float => sc(module, ir::ScalarType::Float32),
+        T::Double => sc(module, ir::ScalarType::Float64),
+        T::Enum(id, _) => module.enum_registry.get_type_id(ir::EnumId(*id)),
+        T::Other => module.type_registry.register_type(ir::TypeLayer::Void),
+    }
+}
+
+/// build the real IR expression for a request tree inside `module` (a type-checked PRELUDE)
+pub fn expr_of_x(module: &mut ir::Module, x: &X) -> Result<ir::Expression, String> {
+    Ok(match x {
+        X::Lit(k) => ir::Expression::Literal(const_of_k(k)),
+        X::Var(k) => {
+            let ty = type_of_t(module, &T::Int);
+            let id = module
+                .variable_registry
+                .register_local_variable(ir::LocalVariable {
+                    name: rssl::text::Located::none("v".to_string()),
+                    type_id: ty,
+                    storage_class: ir::LocalStorage::Local,
+                    precise: false,
+                    constexpr_value: k.as_ref().map(const_of_k),
+                });
+            ir::Expression::Variable(id)
+        }
+        X::Global(k) => {
+            let mut g = module.global_registry[0].clone();
+            g.constexpr_value = k.as_ref().map(const_of_k);
+            module.global_registry.push(g);
+            ir::Expression::Global(ir::GlobalId(module.global_registry.len() as u32 - 1))
+        }
+        X::EnumVal(id, k) => {
+            if *id >= module.enum_registry.get_enum_count() {
+                return Err(format!("enum {} not in prelude", id));
+            }
+            let under = module.enum_registry.get_underlying_type_id(ir::EnumId(*id));
+            let vid = module.enum_registry.register_enum_value(
+                ir::EnumId(*id),
+                rssl::text::Located::none("EV".to_string()),
+                const_of_k(k),
+                under,
+            );
+            ir::Expression::EnumValue(vid)
+        }
+        X::Cast(t, inner) => {
+            if let T::Enum(id, u) = t {
+                if *id >= module.enum_registry.get_enum_count() {
+                    return Err(format!("enum {} not in prelude", id));
+                }
+                let real = module.enum_registry.get_underlying_scalar(ir::EnumId(*id));
+                if (real == ir::ScalarType::UInt32) != *u {
+                    return Err(format!("enum {} underlying type differs from prelude", id));
+                }
+            }
+            let ty = type_of_t(module, t);
+            ir::Expression::Cast(ty, Box::new(expr_of_x(module, inner)?))
+        }
+        X::SizeOf(t) => ir::Expression::SizeOf(type_of_t(module, t)),
+        X::Op(o, args) => {
+            let op = OPS
+                .iter()
+                .find(|p| p.0 == o)
+                .ok_or_else(|| format!("op {} unknown", o))?
+                .1
+                .clone();
+            let mut a = Vec::new();
+            for e in args {
+                a.push(expr_of_x(module, e)?);
+            }
+            ir::Expression::IntrinsicOp(op, a)
+        }
+        X::Other => ir::Expression::Sequence(Vec::new()),
+    })
+}
+
+// ------------------------------------------------------------------------------------------
+// the reference evaluator (the property's own words)
+// ------------------------------------------------------------------------------------------
+/// what the property requires of the result
+#[derive(Clone, Debug, PartialEq)]
+pub enum Want {
+    /// exactly this value
+    Val(K),
+    /// must be reported as not constant
+    NotConst,
+    /// this value or "not constant" (never another value)
+    ValOrNotConst(K),
+    /// outside what the property speaks about (unsupported operator / ill-typed operands):
+    /// any result is acceptable, a panic only when the IR did not come from the type checker
+    Unspecified(&'static str),
+}
+
+const I128_MIN: i128 = i128::MIN;
+
+fn f32v(bits: u32) -> f64 {
+    f32::from_bits(bits) as f64
+}
+
+/// decoded float: None = NaN, else exact comparison key via f64 (f32 widens exactly)
+fn fval(k: &K) -> Option<Option<f64>> {
+    let v = match k {
+        K::FLit(b) | K::F64(b) => f64::from_bits(*b),
+        K::F16(b) | K::F32(b) => f32v(*b),
+        _ => return None,
+    };
+    Some(if v.is_nan() { None } else { Some(v) })
+}
+
+/// HLSL float -> 32-bit integer conversion (the rule taken: D3D ftoi/ftou — truncate toward zero,
+/// saturate to the target range, NaN gives 0). Computed on the exact binary expansion.
+fn float_to_int(bits: u64, lo: i128, hi: i128) -> i128 {
+    let sign = bits >> 63 != 0;
+    let exp = ((bits >> 52) & 0x7ff) as i32;
+    let frac = bits & ((1u64 << 52) - 1);
+    if exp == 0x7ff {
+        if frac != 0 {
+            return 0;
+        }
+        return if sign { lo } else { hi };
+    }
+    let (m, e) = if exp == 0 { (frac, -1074) } else { (frac | (1u64 << 52), exp - 1075) };
+    // |value| = m * 2^e, truncated
+    let mag: i128 = if e >= 0 {
+        if e > 64 { i128::MAX } else { (m as i128).checked_shl(e as u32).unwrap_or(i128::MAX) }
+    } else if -e >= 64 {
+        0
+    } else {
+        (m >> (-e)) as i128
+    };
+    let v = if sign { -mag } else { mag };
+    v.clamp(lo, hi)
+}
+
+fn widen(bits: u32) -> u64 {
+    (f32::from_bits(bits) as f64).to_bits()
+}
+
+fn as_f64_bits(k: &K) -> Option<u64> {
+    match k {
+        K::FLit(b) | K::F64(b) => Some(*b),
+        K::F16(b) | K::F32(b) => Some(widen(*b)),
+        _ => None,
+    }
+}
+
+/// integer view of a 32-bit or literal integer constant
+fn ival(k: &K) -> Option<i128> {
+    match k {
+        K::Lit(v) => Some(*v),
+        K::I32(v) => Some(*v as i128),
+        K::U32(v) => Some(*v as i128),
+        _ => None,
+    }
+}
+
+fn wrap_like(k: &K, exact: i128) -> K {
+    // reduce an exact integer result into the operand's type
+    match k {
+        K::I32(_) => {
+            let m = exact.rem_euclid(1i128 << 32);
+            K::I32(if m >= 1i128 << 31 { (m - (1i128 << 32)) as i32 } else { m as i32 })
+        }
+        K::U32(_) => K::U32(exact.rem_euclid(1i128 << 32) as u32),
+        _ => K::Lit(exact),
+    }
+}
+
+fn same_kind(a: &K, b: &K) -> bool {
+    std::mem::discriminant(a) == std::mem::discriminant(b)
+}
+
+fn cast_ref(t: &T, v: &K) -> Want {
+    let v = match v {
+        K::Enum(_, inner) => (**inner).clone(),
+        o => o.clone(),
+    };
+    if let K::Enum(_, _) = v {
+        return Want::Unspecified("nested enum constant");
+    }
+    match t {
+        T::Enum(id, uint) => {
+            let under = if *uint { T::UInt } else { T::Int };
+            match cast_ref(&under, &v) {
+                Want::Val(k) => Want::Val(K::Enum(*id, Box::new(k))),
+                o => o,
+            }
+        }
+        T::Bool => match &v {
+            K::Bool(b) => Want::Val(K::Bool(*b)),
+            K::Lit(_) | K::I32(_) | K::U32(_) => Want::Val(K::Bool(ival(&v).unwrap() != 0)),
+            K::FLit(_) | K::F16(_) | K::F32(_) | K::F64(_) => {
+                // non-zero (NaN is non-zero)
+                Want::Val(K::Bool(fval(&v).unwrap() != Some(0.0)))
+            }
+            _ => Want::Unspecified("cast of 64-bit/string constant"),
+        },
+        T::Int | T::UInt => {
+            let (lo, hi) = if *t == T::Int {
+                (i32::MIN as i128, i32::MAX as i128)
+            } else {
+                (0, u32::MAX as i128)
+            };
+            let exact = match &v {
+                K::Bool(b) => *b as i128,
+                K::Lit(_) | K::I32(_) | K::U32(_) => ival(&v).unwrap(),
+                K::FLit(_) | K::F16(_) | K::F32(_) | K::F64(_) => {
+                    float_to_int(as_f64_bits(&v).unwrap(), lo, hi)
+                }
+                _ => return Want::Unspecified("cast of 64-bit/string constant"),
+            };
+            Want::Val(wrap_like(if *t == T::Int { &K::I32(0) } else { &K::U32(0) }, exact))
+        }
+        T::Half | T::Float | T::Double => {
+            // to floating point: nearest representable (Rust `as` is the trusted primitive here);
+            // half constants are kept at float precision by the compiler, which the property does not
+            // speak about
+            let f: f64 = match &v {
+                K::Bool(b) => *b as u8 as f64,
+                K::Lit(x) => {
+                    return Want::Val(match t {
+                        T::Half => K::F16((*x as f32).to_bits()),
+                        T::Float => K::F32((*x as f32).to_bits()),
+                        _ => K::F64((*x as f64).to_bits()),
+                    });
+                }
+                K::I32(x) => *x as f64,
+                K::U32(x) => *x as f64,
+                K::FLit(_) | K::F16(_) | K::F32(_) | K::F64(_) => {
+                    f64::from_bits(as_f64_bits(&v).unwrap())
+                }
+                _ => return Want::Unspecified("cast of 64-bit/string constant"),
+            };
+            Want::Val(match t {
+                T::Half => K::F16((f as f32).to_bits()),
+                T::Float => K::F32((f as f32).to_bits()),
+                _ => K::F64(f.to_bits()),
+            })
+        }
+        T::Lit | T::FLit | T::Other => Want::Unspecified("cast to a type the evaluator does not support"),
+    }
+}
+
+fn size_ref(t: &T) -> Want {
+    match t {
+        T::Bool | T::Int | T::UInt | T::Float | T::Enum(_, _) => Want::Val(K::U32(4)),
+        T::Half => Want::Val(K::U32(2)),
+        T::Double => Want::Val(K::U32(8)),
+        _ => Want::NotConst,
+    }
+}
+
+const CMP_OPS: &[&str] = &[
+    "LessThan",
+    "LessEqual",
+    "GreaterThan",
+    "GreaterEqual",
+    "Equality",
+    "Inequality",
+];
+
+/// Reference value of an operator applied to evaluated operands
+fn op_ref(op: &str, raw: &[K]) -> Want {
+    // enums take part through their underlying integer; the result of a non-comparison is of the enum
+    let mut enum_id: Option<u32> = None;
+    let mut args: Vec<K> = Vec::new();
+    for (i, a) in raw.iter().enumerate() {
+        match a {
+            K::Enum(id, inner) => {
+                if let K::Enum(_, _) = **inner {
+                    return Want::Unspecified("nested enum constant");
+                }
+                if (enum_id.is_some() && enum_id != Some(*id)) || (i > 0 && enum_id.is_none()) {
+                    return Want::Unspecified("operands mix an enum with another type");
+                }
+                enum_id = Some(*id);
+                args.push((**inner).clone());
+            }
+            o => {
+                if enum_id.is_some() {
+                    return Want::Unspecified("operands mix an enum with another type");
+                }
+                args.push(o.clone());
+            }
+        }
+    }
+    let wrap_enum = |w: Want| -> Want {
+        match (enum_id, CMP_OPS.contains(&op)) {
+            (Some(id), false) => match w {
+                Want::Val(k) => Want::Val(K::Enum(id, Box::new(k))),
+                Want::ValOrNotConst(k) => Want::ValOrNotConst(K::Enum(id, Box::new(k))),
+                o => o,
+            },
+            _ => w,
+        }
+    };
+    let int_like = |k: &K| matches!(k, K::Lit(_) | K::I32(_) | K::U32(_));
+    let lit_fit = |v: Option<i128>| match v {
+        Some(v) => Want::Val(K::Lit(v)),
+        None => Want::NotConst, // exact result is not representable: must not be a wrong value
+    };
+    let r = match (op, args.as_slice()) {
+        ("PrefixIncrement" | "PostfixIncrement", [a @ (K::I32(_) | K::U32(_))]) => {
+            Want::Val(wrap_like(a, ival(a).unwrap() + 1))
+        }
+        ("PrefixDecrement" | "PostfixDecrement", [a @ (K::I32(_) | K::U32(_))]) => {
+            Want::Val(wrap_like(a, ival(a).unwrap() - 1))
+        }
+        ("Plus", [a]) if !matches!(a, K::Str | K::I64(_) | K::U64(_)) => Want::Val(a.clone()),
+        ("Minus", [K::Lit(a)]) => lit_fit(a.checked_neg()),
+        ("Minus", [a @ K::I32(_)]) => Want::Val(wrap_like(a, -ival(a).unwrap())),
+        ("Minus", [K::FLit(b)]) => Want::Val(K::FLit(b ^ (1 << 63))),
+        ("Minus", [K::F64(b)]) => Want::Val(K::F64(b ^ (1 << 63))),
+        ("Minus", [K::F16(b)]) => Want::Val(K::F16(b ^ (1 << 31))),
+        ("Minus", [K::F32(b)]) => Want::Val(K::F32(b ^ (1 << 31))),
+        ("LogicalNot", [K::Bool(b)]) => Want::Val(K::Bool(!b)),
+        ("BitwiseNot", [a]) if int_like(a) => Want::Val(wrap_like(a, -1 - ival(a).unwrap())),
+        ("Add" | "Subtract" | "Multiply", [a, b]) if int_like(a) && same_kind(a, b) => {
+            let (x, y) = (ival(a).unwrap(), ival(b).unwrap());
+            let exact = match op {
+                "Add" => x.checked_add(y),
+                "Subtract" => x.checked_sub(y),
+                _ => x.checked_mul(y),
+            };
+            match (a, exact) {
+                (K::Lit(_), e) => lit_fit(e),
+                (_, Some(e)) => Want::Val(wrap_like(a, e)),
+                (_, None) => unreachable!(),
+            }
+        }
+        ("Divide" | "Modulus", [a, b]) if int_like(a) && same_kind(a, b) => {
+            let (x, y) = (ival(a).unwrap(), ival(b).unwrap());
+            if y == 0 {
+                Want::NotConst
+            } else if x == I128_MIN && y == -1 {
+                // only reachable for literals: the quotient is not representable, the remainder is 0
+                if op == "Divide" { Want::NotConst } else { Want::ValOrNotConst(K::Lit(0)) }
+            } else {
+                // C semantics: quotient truncated toward zero, remainder has the sign of the dividend
+                let q = x / y;
+                let r = x - q * y;
+                Want::Val(wrap_like(a, if op == "Divide" { q } else { r }))
+            }
+        }
+        ("LeftShift" | "RightShift", [a @ (K::I32(_) | K::U32(_)), b]) if same_kind(a, b) => {
+            // 32-bit shifts use the low five bits of the count
+            let n = (ival(b).unwrap() & 31) as u32;
+            let x = ival(a).unwrap();
+            Want::Val(wrap_like(a, if op == "LeftShift" { x << n } else { x >> n }))
+        }
+        ("LeftShift", [K::Lit(x), K::Lit(n)]) => {
+            if *n < 0 {
+                Want::NotConst
+            } else if *n > 127 {
+                // x * 2^n is representable only for x = 0
+                if *x == 0 { Want::ValOrNotConst(K::Lit(0)) } else { Want::NotConst }
+            } else {
+                // exact: x * 2^n, by repeated doubling
+                let mut v = Some(*x);
+                for _ in 0..*n {
+                    v = v.and_then(|v| v.checked_mul(2));
+                }
+                lit_fit(v)
+            }
+        }
+        ("RightShift", [K::Lit(x), K::Lit(n)]) => {
+            if *n < 0 {
+                Want::NotConst
+            } else if *n > 127 {
+                Want::ValOrNotConst(K::Lit(if *x < 0 { -1 } else { 0 }))
+            } else if *n == 127 {
+                Want::Val(K::Lit(if *x < 0 { -1 } else { 0 }))
+            } else {
+                // exact: floor(x / 2^n)
+                Want::Val(K::Lit(x.div_euclid(1i128 << *n)))
+            }
+        }
+        ("BitwiseAnd" | "BitwiseOr" | "BitwiseXor", [a, b]) if int_like(a) && same_kind(a, b) => {
+            // two's complement bit operations; on exact integers they never leave the operand range
+            let (x, y) = (ival(a).unwrap(), ival(b).unwrap());
+            let v = match op {
+                "BitwiseAnd" => x & y,
+                "BitwiseOr" => x | y,
+                _ => x ^ y,
+            };
+            Want::Val(wrap_like(a, v))
+        }
+        ("BooleanAnd", [K::Bool(a), K::Bool(b)]) => Want::Val(K::Bool(*a && *b)),
+        ("BooleanOr", [K::Bool(a), K::Bool(b)]) => Want::Val(K::Bool(*a || *b)),
+        ("LessThan" | "LessEqual" | "GreaterThan" | "GreaterEqual" | "Equality" | "Inequality", [a, b])
+            if same_kind(a, b) && !matches!(a, K::Str) =>
+        {
+            use std::cmp::Ordering::*;
+            // C comparison: an ordering, or unordered when a NaN is involved
+            let ord = match (a, b) {
+                (K::Bool(x), K::Bool(y)) => Some(x.cmp(y)),
+                (K::I64(x), K::I64(y)) => Some(x.cmp(y)),
+                (K::U64(x), K::U64(y)) => Some(x.cmp(y)),
+                _ if int_like(a) => Some(ival(a).unwrap().cmp(&ival(b).unwrap())),
+                _ => match (fval(a).unwrap(), fval(b).unwrap()) {
+                    (Some(x), Some(y)) => x.partial_cmp(&y),
+                    _ => None,
+                },
+            };
+            Want::Val(K::Bool(match op {
+                "LessThan" => ord == Some(Less),
+                "LessEqual" => ord == Some(Less) || ord == Some(Equal),
+                "GreaterThan" => ord == Some(Greater),
+                "GreaterEqual" => ord == Some(Greater) || ord == Some(Equal),
+                "Equality" => ord == Some(Equal),
+                _ => ord != Some(Equal),
+            }))
+        }
+        _ => Want::Unspecified("operator/operand kinds outside the property"),
+    };
+    wrap_enum(r)
+}
+
+/// reference evaluation of a whole tree
+pub fn reference(x: &X) -> Want {
+    match x {
+        X::Lit(k) => Want::Val(k.clone()),
+        X::Var(Some(k)) | X::Global(Some(k)) => Want::Val(k.clone()),
+        X::Var(None) | X::Global(None) | X::Other => Want::NotConst,
+        X::EnumVal(id, k) => Want::Val(K::Enum(*id, Box::new(k.clone()))),
+        X::SizeOf(t) => size_ref(t),
+        X::Cast(t, inner) => match reference(inner) {
+            Want::Val(v) => cast_ref(t, &v),
+            Want::ValOrNotConst(v) => match cast_ref(t, &v) {
+                Want::Val(k) => Want::ValOrNotConst(k),
+                o => o,
+            },
+            o => o,
+        },
+        X::Op(op, args) => {
+            let mut vals = Vec::new();
+            let mut soft = false;
+            for a in args {
+                match reference(a) {
+                    Want::Val(v) => vals.push(v),
+                    Want::ValOrNotConst(v) => {
+                        soft = true;
+                        vals.push(v)
+                    }
+                    o => return o,
+                }
+            }
+            match op_ref(op, &vals) {
+                Want::Val(k) if soft => Want::ValOrNotConst(k),
+                o => o,
+            }
+        }
+    }
+}
+
+// ------------------------------------------------------------------------------------------
+// running the real code
+// ------------------------------------------------------------------------------------------
+#[derive(Clone, Debug, PartialEq)]
+pub enum Obs {
+    Val(K),
+    NotConst,
+    Panic(String),
+}
+
+pub fn show_obs(o: &Obs) -> String {
+    match o {
+        Obs::Val(k) => show_k(k),
+        Obs::NotConst => "notconst".into(),
+        Obs::Panic(m) => format!("panic:{}", m),
+    }
+}
+
+pub fn eval_real(module: &ir::Module, e: &ir::Expression) -> Obs {
+    let mut m = module.clone();
+    let e = e.clone();
+    match guard(move || evaluate_constexpr(&e, &mut m)) {
+        Ok(Ok(c)) => Obs::Val(k_of_const(&c)),
+        Ok(Err(())) => Obs::NotConst,
+        Err(p) => Obs::Panic(norm_panic(&p)),
+    }
+}
+
+/// `file:line: message` with the file made relative to the repository whatever directory it was built from
+fn norm_panic(p: &str) -> String {
+    for root in ["/typer/src/", "/ir/src/", "/parser/src/", "/preprocess/src/", "/ast/src/", "/text/src/",
+                 "/formatter/src/", "/hlsl/src/", "/msl/src/"] {
+        if let Some(i) = p.find(root) {
+            return p[i + 1..].to_string();
+        }
+    }
+    p.to_string()
+}
+
+fn panic_msg(p: &str) -> String {
+    // "file:line: message" -> message (the model predicts the message, not the line)
+    p.splitn(2, ": ").nth(1).unwrap_or(p).to_string()
+}
+
+/// the no-panic guarantee speaks about trees a type checker can emit: operator nodes with the operand count
+/// the operator takes, enum operands not mixed with operands of another type, `~` on an integer.
+/// (Written from the property text; the Lean theorem has the same hypothesis, stated independently.)
+pub fn admissible(x: &X) -> bool {
+    match x {
+        X::Cast(_, e) => admissible(e),
+        X::Op(op, args) => {
+            if !args.iter().all(admissible) {
+                return false;
+            }
+            let unary = UNARY_OPS.contains(&op.as_str());
+            let binary = BINARY_OPS.contains(&op.as_str());
+            if (unary && args.len() != 1) || (binary && args.len() != 2) {
+                return false;
+            }
+            // operands are evaluated left to right up to the first one without a value
+            let mut vals = Vec::new();
+            for a in args {
+                match reference(a) {
+                    Want::Val(v) | Want::ValOrNotConst(v) => vals.push(v),
+                    // an operand the property does not speak about: its kind is unknown
+                    Want::Unspecified(_) => return false,
+                    Want::NotConst => break,
+                }
+            }
+            let id = |k: &K| match k {
+                K::Enum(i, _) => Some(*i),
+                _ => None,
+            };
+            if let Some(first) = vals.first() {
+                if vals.iter().any(|v| id(v) != id(first)) {
+                    return false;
+                }
+            }
+            let nested = |k: &K| matches!(k, K::Enum(_, inner) if matches!(**inner, K::Enum(_, _)));
+            if vals.iter().any(nested) {
+                return false;
+            }
+            if op == "BitwiseNot" {
+                let int_like = |k: &K| {
+                    let k = match k {
+                        K::Enum(_, inner) => &**inner,
+                        o => o,
+                    };
+                    matches!(k, K::Lit(_) | K::I32(_) | K::U32(_))
+                };
+                if !vals.iter().all(int_like) {
+                    return false;
+                }
+            }
+            true
+        }
+        X::Lit(K::Enum(_, inner)) => !matches!(**inner, K::Enum(_, _)),
+        X::EnumVal(_, inner) => !matches!(inner, K::Enum(_, _)),
+        X::Var(Some(K::Enum(_, inner))) | X::Global(Some(K::Enum(_, inner))) => !matches!(**inner, K::Enum(_, _)),
+        _ => true,
+    }
+}
+
+/// verdict of the property's oracle on one observation
+pub fn judge(x: &X, obs: &Obs, from_typer: bool) -> String {
+    let want = reference(x);
+    match (obs, &want) {
+        (Obs::Panic(_), _) if !from_typer && !admissible(x) => "ok".into(),
+        (Obs::Panic(p), _) => format!("FAIL:panic {}", p),
+        (_, Want::Unspecified(_)) => "ok".into(),
+        (Obs::Val(k), Want::Val(w)) | (Obs::Val(k), Want::ValOrNotConst(w)) => {
+            if k == w {
+                "ok".into()
+            } else {
+                format!("FAIL:value {} expected {}", show_k(k), show_k(w))
+            }
+        }
+        (Obs::NotConst, Want::NotConst) | (Obs::NotConst, Want::ValOrNotConst(_)) => "ok".into(),
+        (Obs::NotConst, Want::Val(w)) => format!("FAIL:not constant, expected {}", show_k(w)),
+        (Obs::Val(k), Want::NotConst) => {
+            format!("FAIL:value {} where the expression must be reported not constant", show_k(k))
+        }
+    }
+}
+
+pub struct World {
+    pub prelude: ir::Module,
+}
+
+impl World {
+    pub fn new() -> World {
+        let src = format!("{}void t() {{}}\n", PRELUDE);
+        match front_end_src(&src) {
+            Ok(m) => World { prelude: m },
+            Err(e) => {
+                eprintln!("C13: prelude rejected: {}", e.text());
+                std::process::exit(3);
+            }
+        }
+    }
+
+    /// type check `PRELUDE void t() { <src>; }` and return the module and the expression
+    pub fn typed(&self, src: &str) -> Result<(ir::Module, ir::Expression), String> {
+        let text = format!("{}void t() {{ {}; }}\n", PRELUDE, src);
+        let m = match guard(|| front_end_src(&text)) {
+            Ok(Ok(m)) => m,
+            Ok(Err(e)) => return Err(format!("reject:{}:{}", e.stage(), e.text())),
+            Err(p) => return Err(format!("panic:{}", norm_panic(&p))),
+        };
+        let mut found = None;
+        for id in m.function_registry.iter() {
+            if m.function_registry.get_function_name(id) == "t" {
+                if let Some(imp) = m.function_registry.get_function_implementation(id) {
+                    if let Some(ir::Statement {
+                        kind: ir::StatementKind::Expression(e),
+                        ..
+                    }) = imp.scope_block.0.first()
+                    {
+                        found = Some(e.clone());
+                    }
+                }
+            }
+        }
+        match found {
+            Some(e) => Ok((m, e)),
+            None => Err("reject:shape:no expression statement".into()),
+        }
+    }
+}
+
+fn count_nodes(x: &X, hist: &mut Hist) -> (u32, u32) {
+    // (nodes, depth)
+    match x {
+        X::Cast(t, e) => {
+            hist.add(&format!("cast:{}", show_t(t).split(':').next().unwrap_or("")));
+            let (n, d) = count_nodes(e, hist);
+            (n + 1, d + 1)
+        }
+        X::Op(o, a) => {
+            hist.add(&format!("op:{}", o));
+            let mut n = 1;
+            let mut d = 0;
+            for e in a {
+                let (n1, d1) = count_nodes(e, hist);
+                n += n1;
+                d = d.max(d1);
+            }
+            (n, d + 1)
+        }
+        X::Lit(k) => {
+            hist.add(&format!("leaf:{}", &show_k(k)[..1]));
+            (1, 0)
+        }
+        X::EnumVal(_, _) => {
+            hist.add("leaf:enumvalue");
+            (1, 0)
+        }
+        X::Var(_) | X::Global(_) => {
+            hist.add("leaf:variable");
+            (1, 0)
+        }
+        X::SizeOf(_) => {
+            hist.add("leaf:sizeof");
+            (1, 0)
+        }
+        X::Other => {
+            hist.add("leaf:other");
+            (1, 0)
+        }
+    }
+}
+
+/// run one tree on the real evaluator (IR rebuilt inside the prelude module) and emit the case
+fn run_tree(w: &World, x: &X, src: Option<&str>, out: &mut Out, hist: &mut Hist) {
+    let mut req = format!("C13.eval\t{}", show_x(x));
+    if let Some(s) = src {
+        req.push_str(&format!("\tsrc:{}", s));
+    }
+    let mut m = w.prelude.clone();
+    let e = match expr_of_x(&mut m, x) {
+        Ok(e) => e,
+        Err(why) => {
+            out.case(&req, "unbuildable", &format!("SKIP:{}", why));
+            return;
+        }
+    };
+    let obs = eval_real(&m, &e);
+    let verdict = judge(x, &obs, src.is_some());
+    let (n, d) = count_nodes(x, hist);
+    hist.add(&format!("depth{}", d));
+    hist.add(&format!("nodes{}", if n > 12 { "13+".to_string() } else { n.to_string() }));
+    hist.add(match &obs {
+        Obs::Val(_) => "result:value",
+        Obs::NotConst => "result:notconst",
+        Obs::Panic(_) => "result:panic",
+    });
+    match reference(x) {
+        Want::Unspecified(_) => hist.add("oracle:unspecified"),
+        Want::NotConst => hist.add("oracle:must-be-notconst"),
+        Want::Val(_) => hist.add("oracle:value"),
+        Want::ValOrNotConst(_) => hist.add("oracle:value-or-notconst"),
+    }
+    let shown = match &obs {
+        Obs::Panic(p) => format!("panic:{}", panic_msg(p)),
+        o => show_obs(o),
+    };
+    out.case(&req, &shown, &verdict);
+}
+
+/// type check a source expression, check that the IR survives the request round trip with the same
+/// result, then run it as a tree
+fn run_source(w: &World, src: &str, verbose: bool, out: &mut Out, hist: &mut Hist) {
+    match w.typed(src) {
+        Err(e) if e.starts_with("panic:") => {
+            hist.add("source:frontend-panic");
+            out.case(
+                &format!("C13.src\t{}", src),
+                &format!("panic:{}", panic_msg(&e[6..])),
+                &format!("FAIL:panic {}", &e[6..]),
+            );
+        }
+        Err(e) => {
+            let kind: String = e.split(':').take(2).collect::<Vec<_>>().join(":");
+            hist.add(&format!("source:{}", kind));
+            if verbose {
+                out.case(&format!("C13.src\t{}", src), &e, "SKIP:rejected by the front end");
+            }
+        }
+        Ok((m, e)) => {
+            hist.add("source:typed");
+            let x = x_of_expr(&m, &e);
+            // the value in the module the type checker built must be the value of the rebuilt tree
+            let direct = eval_real(&m, &e);
+            let mut m2 = w.prelude.clone();
+            if let Ok(e2) = expr_of_x(&mut m2, &x) {
+                let rebuilt = eval_real(&m2, &e2);
+                if rebuilt != direct {
+                    out.case(
+                        &format!("C13.eval\t{}\tsrc:{}", show_x(&x), src),
+                        &show_obs(&direct),
+                        &format!(
+                            "SKIP:harness serialisation loses information (rebuilt tree gives {})",
+                            show_obs(&rebuilt)
+                        ),
+                    );
+                    hist.add("source:roundtrip-mismatch");
+                    return;
+                }
+            }
+            run_tree(w, &x, Some(src), out, hist);
+            // the hypotheses of the theorems (well-formed, admissible operand kinds) are claimed of every
+            // tree the type checker emits; the model evaluates them
+            out.case(&format!("C13.hyp\t{}\tsrc:{}", show_x(&x), src), "wf=1 kinds=1", "ok");
+        }
+    }
+}
+
+// ------------------------------------------------------------------------------------------
+// positions that demand a constant
+// ------------------------------------------------------------------------------------------
+pub const POSITIONS: &[&str] = &["array", "enum", "enumnext", "case", "template", "constint", "constuint", "numthreads", "assert"];
+
+fn err_kind(e: &str) -> String {
+    // "reject:type:<text>" -> a short stable label
+    let t = e.splitn(3, ':').nth(2).unwrap_or(e);
+    let t = t.split(": error: ").nth(1).unwrap_or(t);
+    let words: Vec<&str> = t.split_whitespace().take(5).collect();
+    words.join(" ").chars().filter(|c| c.is_ascii_alphabetic() || *c == ' ').collect()
+}
+
+/// integer view used to compare values observed at a position with the reference value
+fn as_integer(k: &K) -> Option<i128> {
+    match k {
+        K::Bool(b) => Some(*b as i128),
+        K::Lit(v) => Some(*v),
+        K::I32(v) => Some(*v as i128),
+        K::U32(v) => Some(*v as i128),
+        K::I64(v) => Some(*v as i128),
+        K::U64(v) => Some(*v as i128),
+        K::Enum(_, inner) => as_integer(inner),
+        _ => None,
+    }
+}
+
+/// place `src` in a constant-demanding position of a small program; observe what the compiler recorded
+fn observe_position(pos: &str, src: &str) -> Result<String, String> {
+    let text = match pos {
+        "array" => format!("{}float pa[{}];\n", PRELUDE, src),
+        "enum" => format!("{}enum PE {{ PV = {} }};\n", PRELUDE, src),
+        "enumnext" => format!("{}enum PE {{ PW = {}, PV }};\n", PRELUDE, src),
+        "case" => format!("{}void t() {{ switch (0) {{ case {}: break; }} }}\n", PRELUDE, src),
+        "template" => format!(
+            "{}template<uint N> uint tf() {{ return N; }}\nvoid t() {{ tf<{}>(); }}\n",
+            PRELUDE, src
+        ),
+        "constint" => format!("{}static const int pc = {};\n", PRELUDE, src),
+        "constuint" => format!("{}static const uint pc = {};\n", PRELUDE, src),
+        "numthreads" => format!(
+            "{}[numthreads({}, 1, 1)] void main() {{}}\nPipeline PP {{ ComputeShader = main; }}\n",
+            PRELUDE, src
+        ),
+        _ => return Err("SKIP:unknown position".into()),
+    };
+    let m = match guard(|| front_end_src(&text)) {
+        Ok(Ok(m)) => m,
+        Ok(Err(e)) => {
+            return Ok(format!("reject:{}", err_kind(&format!("reject:{}:{}", e.stage(), e.text()))));
+        }
+        Err(p) => return Ok(format!("panic:{}", norm_panic(&p))),
+    };
+    Ok(match pos {
+        "array" => {
+            let g = m.global_registry.iter().find(|g| g.name.node == "pa");
+            match g.map(|g| m.type_registry.get_type_layer(m.type_registry.remove_modifier(g.type_id))) {
+                Some(ir::TypeLayer::Array(_, Some(n))) => format!("len:{}", n),
+                other => format!("shape:{:?}", other),
+            }
+        }
+        "enum" | "enumnext" => {
+            let mut r = "shape:no enum value".to_string();
+            for i in 0..m.enum_registry.get_enum_count() {
+                for vid in m.enum_registry.get_values(ir::EnumId(i)) {
+                    let v = m.enum_registry.get_enum_value(*vid);
+                    if v.name.node == "PV" {
+                        r = format!("val:{}", show_k(&k_of_const(&v.value)));
+                    }
+                }
+            }
+            r
+        }
+        "case" => {
+            let mut r = "shape:no case label".to_string();
+            for id in m.function_registry.iter() {
+                if m.function_registry.get_function_name(id) != "t" {
+                    continue;
+                }
+                if let Some(imp) = m.function_registry.get_function_implementation(id) {
+                    for st in &imp.scope_block.0 {
+                        if let ir::StatementKind::Switch(_, block) = &st.kind {
+                            for inner in &block.0 {
+                                if let ir::StatementKind::CaseLabel(c) = &inner.kind {
+                                    r = format!("val:{}", show_k(&k_of_const(c)));
+                                }
+                            }
+                        }
+                    }
+                }
+            }
+            r
+        }
+        "template" => {
+            let mut r = "shape:no instantiation".to_string();
+            for id in m.function_registry.iter() {
+                if let Some(data) = m.function_registry.get_template_instantiation_data(id) {
+                    if let Some(ir::TypeOrConstant::Constant(c)) = data.template_args.first() {
+                        r = format!("val:{}", show_k(&k_of_const(&c.clone().unrestrict())));
+                    }
+                }
+            }
+            r
+        }
+        "constint" | "constuint" => {
+            match m.global_registry.iter().find(|g| g.name.node == "pc") {
+                Some(g) => match &g.constexpr_value {
+                    Some(c) => format!("val:{}", show_k(&k_of_const(c))),
+                    None => "notconst".to_string(),
+                },
+                None => "shape:no global".to_string(),
+            }
+        }
+        "numthreads" => match m.pipelines.first().and_then(|p| p.stages.first()) {
+            Some(st) => match st.thread_group_size {
+                Some((x, _, _)) => format!("threads:{}", x),
+                None => "shape:no thread group size".to_string(),
+            },
+            None => "shape:no pipeline".to_string(),
+        },
+        _ => unreachable!(),
+    })
+}
+
+/// what the property requires at the position, given the reference value of the expression itself
+fn judge_position(pos: &str, want: &Want, obs: &str) -> String {
+    if obs.starts_with("panic:") {
+        return format!("FAIL:panic {}", &obs[6..]);
+    }
+    if obs.starts_with("shape:") {
+        return format!("SKIP:harness could not observe the position ({})", obs);
+    }
+    let rejected = obs.starts_with("reject:") || obs == "notconst";
+    let (val, soft) = match want {
+        Want::Val(k) => (k.clone(), false),
+        Want::ValOrNotConst(k) => (k.clone(), true),
+        Want::NotConst => {
+            return if rejected {
+                "ok".into()
+            } else {
+                format!("FAIL:{} accepted an expression that has no constant value: {}", pos, obs)
+            };
+        }
+        Want::Unspecified(_) => return "ok".into(),
+    };
+    let iv = as_integer(&val);
+    let observed_int = |prefix: &str| -> Option<i128> {
+        obs.strip_prefix(prefix)
+            .and_then(|r| if prefix == "val:" { parse_k(r).and_then(|k| as_integer(&k)) } else { r.parse().ok() })
+    };
+    let fail = |expected: String| format!("FAIL:{} recorded {} for an expression whose value is {} (expected {})", pos, obs, show_k(&val), expected);
+    match pos {
+        "array" | "numthreads" => {
+            let prefix = if pos == "array" { "len:" } else { "threads:" };
+            if pos == "numthreads" && matches!(val, K::Enum(_, _)) {
+                // whether an enum-typed thread count is admissible is a typing question
+                return "ok".into();
+            }
+            match iv {
+                None => "ok".into(), // non-integer sizes: typing question, not a value question
+                Some(v) => {
+                    let max = if pos == "array" { u64::MAX as i128 } else { u32::MAX as i128 };
+                    let min = if pos == "array" { 1 } else { 0 };
+                    if v >= min && v <= max {
+                        if rejected {
+                            if soft { "ok".into() } else { fail(format!("{}{}", prefix, v)) }
+                        } else if observed_int(prefix) == Some(v) {
+                            "ok".into()
+                        } else {
+                            fail(format!("{}{}", prefix, v))
+                        }
+                    } else if rejected {
+                        "ok".into()
+                    } else {
+                        fail("a rejection: the value is not a valid size".into())
+                    }
+                }
+            }
+        }
+        "enum" | "enumnext" | "case" | "template" => match iv {
+            None => "ok".into(),
+            Some(v) => {
+                // the enumerator after `= v` has the value v + 1
+                let v = if pos == "enumnext" { v + 1 } else { v };
+                if rejected {
+                    // an enum value must fit int or uint, a uint template parameter takes 32-bit values
+                    let representable = v >= i32::MIN as i128 && v <= u32::MAX as i128;
+                    if soft || !representable || pos == "template" { "ok".into() } else { fail(format!("val {}", v)) }
+                } else {
+                    match observed_int("val:") {
+                        Some(o) if o == v => "ok".into(),
+                        // a conversion to the 32-bit type of the position is the only other admissible value
+                        Some(o) if pos == "template" && (o - v).rem_euclid(1i128 << 32) == 0 => "ok".into(),
+                        _ => fail(format!("val {}", v)),
+                    }
+                }
+            }
+        },
+        "constint" | "constuint" => {
+            let t = if pos == "constint" { T::Int } else { T::UInt };
+            match cast_ref(&t, &val) {
+                Want::Val(k) => {
+                    if rejected {
+                        if soft || obs.starts_with("reject:") { "ok".into() } else { fail(show_k(&k)) }
+                    } else if obs == format!("val:{}", show_k(&k)) {
+                        "ok".into()
+                    } else {
+                        fail(show_k(&k))
+                    }
+                }
+                _ => "ok".into(),
+            }
+        }
+        _ => "ok".into(),
+    }
+}
+
+/// `assert_eval<T>(expr, expected)` acceptance: the expected operand is rendered from the reference value
+fn render_reference(k: &K) -> Option<(String, String)> {
+    // (type name, source text of a trivial expression with that value)
+    Some(match k {
+        K::Bool(b) => ("bool".into(), b.to_string()),
+        K::I32(v) => ("int".into(), format!("(int){}", v)),
+        K::U32(v) => ("uint".into(), format!("{}u", v)),
+        K::Enum(0, inner) => ("E0".into(), format!("(E0){}", as_integer(inner)?)),
+        K::Enum(1, inner) => ("E1".into(), format!("(E1){}u", as_integer(inner)?)),
+        K::F32(b) if f32::from_bits(*b).is_finite() && *b >> 31 == 0 => {
+            ("float".into(), format!("{:e}f", f32::from_bits(*b)))
+        }
+        K::F64(b) if f64::from_bits(*b).is_finite() && *b >> 63 == 0 => {
+            ("double".into(), format!("{:e}L", f64::from_bits(*b)))
+        }
+        _ => return None,
+    })
+}
+
+fn run_position(w: &World, pos: &str, src: &str, out: &mut Out, hist: &mut Hist) {
+    // reference value of the expression itself (through the type checker, standalone)
+    let (m, e) = match w.typed(src) {
+        Ok(x) => x,
+        Err(e) if e.starts_with("panic:") => {
+            out.case(&format!("C13.src\t{}", src), &format!("panic:{}", panic_msg(&e[6..])), &format!("FAIL:panic {}", &e[6..]));
+            return;
+        }
+        Err(_) => {
+            hist.add("position:expression-rejected");
+            return;
+        }
+    };
+    let x = x_of_expr(&m, &e);
+    let want = reference(&x);
+    let req = format!("C13.pos\t{}\t{}", pos, src);
+    if pos == "assert" {
+        let val = match &want {
+            Want::Val(k) => k.clone(),
+            _ => {
+                hist.add("assert:no-definite-value");
+                return;
+            }
+        };
+        let (ty, expected) = match render_reference(&val) {
+            Some(r) => r,
+            None => {
+                hist.add("assert:value-not-renderable");
+                return;
+            }
+        };
+        let text = format!("{}void t() {{ assert_eval<{}>({}, {}); }}\n", PRELUDE, ty, src, expected);
+        let obs = match guard(|| front_end_src(&text)) {
+            Ok(Ok(_)) => "accept".to_string(),
+            Ok(Err(e)) => format!("reject:{}", err_kind(&format!("reject:{}:{}", e.stage(), e.text()))),
+            Err(p) => format!("panic:{}", norm_panic(&p)),
+        };
+        let verdict = if obs == "accept" {
+            "ok".to_string()
+        } else if obs.starts_with("reject:expected type") {
+            // the rendered type name differs from the expression's type (const-qualified, literal): not a value question
+            "SKIP:type of the expression is not the rendered type".to_string()
+        } else if obs.starts_with("panic:") {
+            format!("FAIL:panic {}", &obs[6..])
+        } else {
+            format!("FAIL:assert_eval<{}>({}, {}) is rejected although {} is the value HLSL defines: {}", ty, src, expected, show_k(&val), obs)
+        };
+        hist.add(&format!("assert:{}", if obs == "accept" { "accept" } else { "other" }));
+        out.case(&format!("{}\t{}", req, expected), &obs, &verdict);
+        return;
+    }
+    let obs = match observe_position(pos, src) {
+        Ok(o) => o,
+        Err(e) => {
+            out.case(&req, "unobservable", &e);
+            return;
+        }
+    };
+    let verdict = judge_position(pos, &want, &obs);
+    hist.add(&format!("{}:{}", pos, obs.split(':').next().unwrap_or("")));
+    let shown = if obs.starts_with("panic:") { format!("panic:{}", panic_msg(&obs[6..])) } else { obs.clone() };
+    out.case(&req, &shown, &verdict);
+}
+
+// ------------------------------------------------------------------------------------------
+// generators
+// ------------------------------------------------------------------------------------------
+const I32_POOL: &[i32] = &[
+    0, 1, -1, 2, 31, 32, 33, i32::MIN, i32::MAX, -i32::MAX, 65536, 46341, -46341, 5, -7,
+];
+const U32_POOL: &[u32] = &[
+    0, 1, 2, 31, 32, 33, 0x7fff_ffff, 0x8000_0000, u32::MAX, 65536, 65535, 5,
+];
+fn lit_pool() -> Vec<i128> {
+    let p = |n: u32| 1i128 << n;
+    vec![
+        0, 1, -1, 2, 5, -7, 31, 32, 33, 63, 64, 127, 128, 129,
+        p(31) - 1, p(31), -p(31), p(32) - 1, p(32), p(63) - 1, p(63), -p(63), p(64) - 1, p(64),
+        p(126), i128::MAX, i128::MIN, -i128::MAX, 3037000500, 13043817825332782212,
+    ]
+}
+const F32_POOL: &[u32] = &[
+    0x0000_0000, 0x8000_0000, 0x3f80_0000, 0xbf80_0000, 0x3f00_0000, 0x3fc0_0000, 0xbfc0_0000,
+    0x4f32_d05e, 0xcf32_d05e, 0x4f00_0000, 0x4eff_ffff, 0x4f80_0000, 0x4f7f_ffff, 0xcf00_0000,
+    0xcf00_0001, 0x5015_02f9, 0x2edb_e6ff, 0x7f7f_ffff, 0x0000_0001, 0x7f80_0000, 0xff80_0000,
+    0x7fc0_0000, 0x4b80_0000, 0x3f7f_ffff, 0x0080_0000, 0xffc0_0001,
+];
+const F64_POOL: &[u64] = &[
+    0x0000_0000_0000_0000, 0x8000_0000_0000_0000, 0x3ff0_0000_0000_0000, 0xbff0_0000_0000_0000,
+    0x3fe0_0000_0000_0000, 0x41df_ffff_ffe0_0000, 0x41e0_0000_0000_0000, 0xc1e0_0000_0010_0000,
+    0xc1e0_0000_0020_0000, 0x41ef_ffff_fff0_0000, 0x41f0_0000_0000_0000, 0x7e37_e43c_8800_759c,
+    0xfe37_e43c_8800_759c, 0x0000_0000_0000_0001, 0x7ff0_0000_0000_0000, 0xfff0_0000_0000_0000,
+    0x7ff8_0000_0000_0000, 0x41e6_5a0b_c000_0000, 0x4170_0000_1000_0000, 0x3ff0_0000_0000_0001,
+    0x47ef_ffff_f000_0000, 0x47ef_ffff_efff_ffff, 0x47ef_ffff_f000_0001, 0x3680_0000_0000_0000,
+    0x36a0_0000_0000_0000, 0x3690_0000_0000_0000, 0x3690_0000_0000_0001, 0x36a8_0000_0000_0000,
+    0x3810_0000_0000_0000, 0x380f_ffff_ffff_ffff, 0x7ff0_0000_0000_0001, 0xbfe0_0000_0000_0000,
+];
+
+fn kinds_pool() -> Vec<K> {
+    let mut v = vec![K::Bool(false), K::Bool(true), K::Str];
+    v.extend(I32_POOL.iter().map(|x| K::I32(*x)));
+    v.extend(U32_POOL.iter().map(|x| K::U32(*x)));
+    v.extend(lit_pool().into_iter().map(K::Lit));
+    v.extend([0i64, 1, -1, i64::MIN, i64::MAX].iter().map(|x| K::I64(*x)));
+    v.extend([0u64, 1, 1 << 63, u64::MAX].iter().map(|x| K::U64(*x)));
+    v.extend(F32_POOL.iter().map(|x| K::F32(*x)));
+    v.extend(F32_POOL.iter().map(|x| K::F16(*x)));
+    v.extend(F64_POOL.iter().map(|x| K::F64(*x)));
+    v.extend(F64_POOL.iter().map(|x| K::FLit(*x)));
+    for x in [0, 1, 5, -1, i32::MAX, i32::MIN] {
+        v.push(K::Enum(0, Box::new(K::I32(x))));
+    }
+    for x in [1u32, 32, u32::MAX, 0] {
+        v.push(K::Enum(1, Box::new(K::U32(x))));
+    }
+    v
+}
+
+const UNARY_OPS: &[&str] = &[
+    "PrefixIncrement", "PrefixDecrement", "PostfixIncrement", "PostfixDecrement", "Plus", "Minus",
+    "LogicalNot", "BitwiseNot",
+];
+const BINARY_OPS: &[&str] = &[
+    "Add", "Subtract", "Multiply", "Divide", "Modulus", "LeftShift", "RightShift", "BitwiseAnd",
+    "BitwiseOr", "BitwiseXor", "BooleanAnd", "BooleanOr", "LessThan", "LessEqual", "GreaterThan",
+    "GreaterEqual", "Equality", "Inequality",
+];
+const INT_BIN: &[&str] = &[
+    "Add", "Subtract", "Multiply", "Divide", "Modulus", "LeftShift", "RightShift", "BitwiseAnd",
+    "BitwiseOr", "BitwiseXor",
+];
+const CMP_BIN: &[&str] = &[
+    "LessThan", "LessEqual", "GreaterThan", "GreaterEqual", "Equality", "Inequality",
+];
+const CAST_TARGETS: &[T] = &[
+    T::Bool, T::Int, T::UInt, T::Half, T::Float, T::Double, T::Enum(0, false), T::Enum(1, true),
+    T::Lit, T::FLit, T::Other,
+];
+
+#[derive(Clone, Copy, PartialEq, Debug)]
+enum Cls {
+    Bool,
+    Lit,
+    Int,
+    UInt,
+    F32,
+    F16,
+    F64,
+    FLit,
+    E0,
+    E1,
+}
+const CLASSES: &[Cls] = &[
+    Cls::Bool, Cls::Lit, Cls::Int, Cls::UInt, Cls::F32, Cls::F16, Cls::F64, Cls::FLit, Cls::E0, Cls::E1,
+];
+
+fn leaf_of(c: Cls, rng: &mut Rng) -> X {
+    let k = match c {
+        Cls::Bool => K::Bool(rng.chance(1, 2)),
+        Cls::Lit => K::Lit(*rng.pick(&lit_pool())),
+        Cls::Int => K::I32(*rng.pick(I32_POOL)),
+        Cls::UInt => K::U32(*rng.pick(U32_POOL)),
+        Cls::F32 => K::F32(*rng.pick(F32_POOL)),
+        Cls::F16 => K::F16(*rng.pick(F32_POOL)),
+        Cls::F64 => K::F64(*rng.pick(F64_POOL)),
+        Cls::FLit => K::FLit(*rng.pick(F64_POOL)),
+        Cls::E0 => {
+            let v = K::I32(*rng.pick(&[0, 1, 5, -1, i32::MAX, i32::MIN, 31, 32]));
+            return if rng.chance(1, 2) { X::EnumVal(0, v) } else { X::Lit(K::Enum(0, Box::new(v))) };
+        }
+        Cls::E1 => {
+            let v = K::U32(*rng.pick(&[0, 1, 32, u32::MAX, 31, 0x8000_0000]));
+            return if rng.chance(1, 2) { X::EnumVal(1, v) } else { X::Lit(K::Enum(1, Box::new(v))) };
+        }
+    };
+    match rng.below(12) {
+        0 => X::Global(Some(k)),
+        1 => X::Var(Some(k)),
+        _ => X::Lit(k),
+    }
+}
+
+fn cast_target(c: Cls) -> Option<T> {
+    Some(match c {
+        Cls::Bool => T::Bool,
+        Cls::Int => T::Int,
+        Cls::UInt => T::UInt,
+        Cls::F32 => T::Float,
+        Cls::F16 => T::Half,
+        Cls::F64 => T::Double,
+        Cls::E0 => T::Enum(0, false),
+        Cls::E1 => T::Enum(1, true),
+        Cls::Lit | Cls::FLit => return None,
+    })
+}
+
+/// a kind-consistent random tree of class `c` (what a type checker could emit) of depth <= `d`
+fn tree_of(c: Cls, d: u32, rng: &mut Rng) -> X {
+    if d == 0 || rng.chance(1, 8) {
+        return leaf_of(c, rng);
+    }
+    let sub = |c: Cls, rng: &mut Rng| Box::new(tree_of(c, d - 1, rng));
+    // a cast from any class
+    if let Some(t) = cast_target(c) {
+        if rng.chance(1, 3) {
+            let from = *rng.pick(CLASSES);
+            return X::Cast(t, sub(from, rng));
+        }
+    }
+    match c {
+        Cls::Bool => match rng.below(4) {
+            0 => X::Op("LogicalNot".into(), vec![*sub(Cls::Bool, rng)]),
+            1 => X::Op(
+                rng.pick(&["BooleanAnd", "BooleanOr"]).to_string(),
+                vec![*sub(Cls::Bool, rng), *sub(Cls::Bool, rng)],
+            ),
+            _ => {
+                let oc = *rng.pick(CLASSES);
+                X::Op(rng.pick(CMP_BIN).to_string(), vec![*sub(oc, rng), *sub(oc, rng)])
+            }
+        },
+        Cls::Lit | Cls::Int | Cls::UInt | Cls::E0 | Cls::E1 => match rng.below(6) {
+            0 => {
+                let ops: &[&str] = if c == Cls::Lit {
+                    &["Plus", "Minus", "BitwiseNot"]
+                } else {
+                    &["Plus", "Minus", "BitwiseNot", "PrefixIncrement", "PostfixDecrement",
+                      "PrefixDecrement", "PostfixIncrement"]
+                };
+                X::Op(rng.pick(ops).to_string(), vec![*sub(c, rng)])
+            }
+            _ => X::Op(rng.pick(INT_BIN).to_string(), vec![*sub(c, rng), *sub(c, rng)]),
+        },
+        Cls::F32 | Cls::F16 | Cls::F64 | Cls::FLit => {
+            X::Op(rng.pick(&["Plus", "Minus"]).to_string(), vec![*sub(c, rng)])
+        }
+    }
+}
+
+/// any tree at all (ill-typed operand mixes, wrong arities, unsupported operators)
+fn wild_tree(d: u32, rng: &mut Rng) -> X {
+    if d == 0 || rng.chance(1, 6) {
+        return match rng.below(14) {
+            0 => X::Other,
+            1 => X::Global(None),
+            2 => X::Var(None),
+            3 => X::SizeOf(*rng.pick(CAST_TARGETS)),
+            _ => X::Lit(rng.pick(&kinds_pool()).clone()),
+        };
+    }
+    match rng.below(10) {
+        0 | 1 => X::Cast(*rng.pick(CAST_TARGETS), Box::new(wild_tree(d - 1, rng))),
+        2 | 3 => X::Op(rng.pick(UNARY_OPS).to_string(), vec![wild_tree(d - 1, rng)]),
+        4 => {
+            let n = rng.below(4) as usize;
+            let op = rng.pick(OPS).0.to_string();
+            X::Op(op, (0..n).map(|_| wild_tree(d - 1, rng)).collect())
+        }
+        _ => X::Op(
+            rng.pick(BINARY_OPS).to_string(),
+            vec![wild_tree(d - 1, rng), wild_tree(d - 1, rng)],
+        ),
+    }
+}
+
+// ---- source level ----
+const SRC_ATOMS: &[(&str, &[&str])] = &[
+    ("bool", &["true", "false"]),
+    ("lit", &["0", "1", "2", "5", "31", "32", "33", "127", "128", "2147483647", "2147483648",
+              "4294967295", "4294967296", "9223372036854775807", "9223372036854775808",
+              "18446744073709551615", "0x7fffffff", "0xFFFFFFFC", "017"]),
+    ("int", &["(int)0", "(int)1", "(int)-1", "(int)31", "(int)32", "(int)2147483647",
+              "(int)-2147483648", "(int)46341", "gI", "(int)0xffffffff", "(int)5"]),
+    ("uint", &["0u", "1u", "2u", "31u", "32u", "33u", "2147483647u", "2147483648u", "4294967295u",
+               "65536u", "(uint)-1"]),
+    ("float", &["0.0f", "1.0f", "0.5f", "1.5f", "3e9f", "2147483648.0f", "2147483520.0f",
+                "4294967296.0f", "1e10f", "1e-10f", "3.4028235e38f", "16777217.0f", "1e39f"]),
+    ("half", &["0.0h", "1.0h", "65504.0h", "100000.0h", "0.1h"]),
+    ("double", &["0.0L", "1.0L", "3e9L", "1e300L", "4294967295.5L", "2147483647.5L", "0.5L",
+                 "1e-320L", "16777217.0L", "3.4028235677973366e38L"]),
+    ("flit", &["0.0", "1.5", "3e9", "1e300", "0.1", "2147483648.5", "4294967295.9"]),
+    ("E0", &["E0A", "E0B", "E0C", "E0D", "E0M", "(E0)7"]),
+    ("E1", &["E1A", "E1B", "E1M", "(E1)0"]),
+];
+const SRC_TYPES: &[&str] = &["bool", "lit", "int", "uint", "float", "half", "double", "flit", "E0", "E1"];
+const SRC_BIN: &[&str] = &["+", "-", "*", "/", "%", "<<", ">>", "&", "|", "^"];
+const SRC_CMP: &[&str] = &["<", "<=", ">", ">=", "==", "!="];
+
+fn src_atom(ty: &str, rng: &mut Rng) -> String {
+    let atoms = SRC_ATOMS.iter().find(|a| a.0 == ty).unwrap().1;
+    rng.pick(atoms).to_string()
+}
+
+fn src_cast_name(ty: &str) -> Option<&str> {
+    match ty {
+        "lit" | "flit" => None,
+        t => Some(t),
+    }
+}
+
+/// a mostly well-typed source expression whose value has (roughly) type `ty`
+fn src_tree(ty: &str, d: u32, rng: &mut Rng) -> String {
+    if d == 0 || rng.chance(1, 8) {
+        return src_atom(ty, rng);
+    }
+    if let Some(t) = src_cast_name(ty) {
+        if rng.chance(1, 3) {
+            let from = *rng.pick(SRC_TYPES);
+            return format!("({})({})", t, src_tree(from, d - 1, rng));
+        }
+    }
+    // sometimes an operand of another type, to exercise the implicit conversions
+    let other = |ty: &str, rng: &mut Rng| -> String {
+        if rng.chance(1, 6) { rng.pick(SRC_TYPES).to_string() } else { ty.to_string() }
+    };
+    match ty {
+        "bool" => match rng.below(4) {
+            0 => format!("!({})", src_tree(&other("bool", rng), d - 1, rng)),
+            1 => format!(
+                "({}) {} ({})",
+                src_tree(&other("bool", rng), d - 1, rng),
+                rng.pick(&["&&", "||"]),
+                src_tree(&other("bool", rng), d - 1, rng)
+            ),
+            _ => {
+                let oc = *rng.pick(SRC_TYPES);
+                format!(
+                    "({}) {} ({})",
+                    src_tree(oc, d - 1, rng),
+                    rng.pick(SRC_CMP),
+                    src_tree(&other(oc, rng), d - 1, rng)
+                )
+            }
+        },
+        "float" | "half" | "double" | "flit" => {
+            format!("{}({})", rng.pick(&["-", "+"]), src_tree(ty, d - 1, rng))
+        }
+        _ => match rng.below(6) {
+            0 => format!("{}({})", rng.pick(&["-", "+", "~"]), src_tree(ty, d - 1, rng)),
+            _ => format!(
+                "({}) {} ({})",
+                src_tree(ty, d - 1, rng),
+                rng.pick(SRC_BIN),
+                src_tree(&other(ty, rng), d - 1, rng)
+            ),
+        },
+    }
+}
+
+pub fn run(args: &Args, out: &mut Out) {
+    let mut hist = Hist::default();
+    let w = World::new();
+    if let Some(lines) = args.request_lines() {
+        for line in lines {
+            let f: Vec<&str> = line.split('\t').collect();
+            match f.as_slice() {
+                ["C13.src", src] => run_source(&w, src, true, out, &mut hist),
+                ["C13.pos", pos, src, ..] => run_position(&w, pos, src, out, &mut hist),
+                ["C13.hyp", _tree, rest @ ..] => {
+                    if let Some(src) = rest.first().and_then(|s| s.strip_prefix("src:")) {
+                        run_source(&w, src, true, out, &mut hist)
+                    }
+                }
+                ["C13.eval", tree, rest @ ..] => match parse_x(tree) {
+                    Some(x) => {
+                        let src = rest.first().and_then(|s| s.strip_prefix("src:"));
+                        run_tree(&w, &x, src, out, &mut hist)
+                    }
+                    None => out.case(&line, "bad-request", "SKIP:unparsable request"),
+                },
+                _ => {}
+            }
+        }
+        out.stat(&format!("{{\"mode\":\"replay\",\"hist\":{}}}", hist.json()));
+        return;
+    }
+    let mut rng = Rng::new(args.seed);
+    let thorough = args.thorough();
+    let scale = args.n.unwrap_or(if thorough { 60 } else { 1 });
+    let mut direct = Hist::default();
+    let mut wild = Hist::default();
+    let mut typed = Hist::default();
+
+    // (1) direct IR, depth 1, exhaustive over the 32-bit and literal boundary pools for every
+    //     integer operator (same-kind operands), every unary operator and every cast target
+    let lits: Vec<K> = lit_pool().into_iter().map(K::Lit).collect();
+    let i32s: Vec<K> = I32_POOL.iter().map(|x| K::I32(*x)).collect();
+    let u32s: Vec<K> = U32_POOL.iter().map(|x| K::U32(*x)).collect();
+    for pool in [&i32s, &u32s, &lits] {
+        // quick: a seeded third of the pairs; thorough: all
+        for op in INT_BIN.iter().chain(CMP_BIN.iter()) {
+            for a in pool.iter() {
+                for b in pool.iter() {
+                    if !thorough && rng.below(3) != 0 {
+                        continue;
+                    }
+                    let x = X::Op(op.to_string(), vec![X::Lit(a.clone()), X::Lit(b.clone())]);
+                    run_tree(&w, &x, None, out, &mut direct);
+                }
+            }
+        }
+    }
+    let all = kinds_pool();
+    for op in UNARY_OPS {
+        for a in &all {
+            run_tree(&w, &X::Op(op.to_string(), vec![X::Lit(a.clone())]), None, out, &mut direct);
+        }
+    }
+    for t in CAST_TARGETS {
+        for a in &all {
+            run_tree(&w, &X::Cast(*t, Box::new(X::Lit(a.clone()))), None, out, &mut direct);
+        }
+    }
+    // float comparisons: all pairs of the float pools (same kind)
+    for op in CMP_BIN {
+        for a in F32_POOL {
+            for b in F32_POOL {
+                if !thorough && rng.below(4) != 0 {
+                    continue;
+                }
+                let x = X::Op(op.to_string(), vec![X::Lit(K::F32(*a)), X::Lit(K::F32(*b))]);
+                run_tree(&w, &x, None, out, &mut direct);
+            }
+        }
+        for a in F64_POOL {
+            for b in F64_POOL {
+                if !thorough && rng.below(6) != 0 {
+                    continue;
+                }
+                let x = X::Op(op.to_string(), vec![X::Lit(K::F64(*a)), X::Lit(K::F64(*b))]);
+                run_tree(&w, &x, None, out, &mut direct);
+            }
+        }
+    }
+    // (2) kind-consistent random trees to depth 5
+    for _ in 0..1500 * scale {
+        let c = *rng.pick(CLASSES);
+        let d = rng.range(2, 5) as u32;
+        let x = tree_of(c, d, &mut rng);
+        run_tree(&w, &x, None, out, &mut direct);
+    }
+    // (3) arbitrary trees (ill-typed mixes, arities, unsupported operators) to depth 4
+    for _ in 0..700 * scale {
+        let d = rng.range(1, 4) as u32;
+        let x = wild_tree(d, &mut rng);
+        run_tree(&w, &x, None, out, &mut wild);
+    }
+    // (4) source expressions through the real type checker, depth <= 5
+    for _ in 0..1500 * scale {
+        let ty = *rng.pick(SRC_TYPES);
+        let d = rng.range(1, 5) as u32;
+        let src = src_tree(ty, d, &mut rng);
+        run_source(&w, &src, false, out, &mut typed);
+    }
+    // (5) the same kind of source expressions in every position that demands a constant
+    let mut posh = Hist::default();
+    for _ in 0..120 * scale {
+        let ty = *rng.pick(&["lit", "int", "uint", "bool", "E0", "E1", "lit", "int", "uint", "float", "double"]);
+        let d = rng.range(0, 4) as u32;
+        let src = src_tree(ty, d, &mut rng);
+        for pos in POSITIONS {
+            run_position(&w, pos, &src, out, &mut posh);
+        }
+    }
+    out.stat(&format!("{{\"positions\":{}}}", posh.json()));
+    out.stat(&format!(
+        "{{\"direct_ir\":{},\"arbitrary_ir\":{},\"through_type_checker\":{}}}",
+        direct.json(),
+        wild.json(),
+        typed.json()
+    ));
 }
